@@ -244,7 +244,17 @@ def _new_cells_from_series(self, series, name, param):
     return cells
 
 
-def _overwrite_colnames(self, frame, names):
+def _overwrite_colnames(self, frame, names, space=None):
+    """Names of the cells to create from the columns of ``frame``
+
+    All the names are validated here, before any cells is created:
+    each must be a valid name, must not be given twice and must be
+    a name that can be added as cells to ``space`` (``self`` by default).
+    If ``space`` is :obj:`False`, the cells are going to be created in a
+    space that does not exist yet: its namespace will hold nothing but the
+    references of the model.
+    """
+    from modelx.core.cells import CellsImpl
 
     if frame.columns.nlevels > 1:
         raise ValueError("columns must not be MultiIndex")
@@ -252,20 +262,26 @@ def _overwrite_colnames(self, frame, names):
     cells_names = list(frame.columns)
 
     if names is not None:
-        is_overwritten = [is_valid_name(n) for n in names] + [False] * max(
-            len(cells_names) - len(names), 0)
         cells_names = [
-            names[i] if is_overwritten[i] else n
+            names[i] if i < len(names) and is_valid_name(names[i]) else n
             for i, n in enumerate(cells_names)]
-    else:
-        is_overwritten = [False] * len(cells_names)
 
+    if space is None:
+        space = self
+
+    seen = set()
     for name in cells_names:
         if not is_valid_name(name):
             raise ValueError("%s is not a valid name" % name)
-        else:
-            if name in self.namespace:
+        elif name in seen:
+            raise ValueError("%s is given more than once" % name)
+        elif space is False:
+            if name in self.model.global_refs:
                 raise ValueError("%s already exists" % name)
+        elif (name in space.namespace
+                or not space.spmgr._can_add(space, name, CellsImpl)):
+            raise ValueError("%s already exists" % name)
+        seen.add(name)
 
     return cells_names
 
@@ -327,13 +343,15 @@ def new_space_from_pandas(
     else:
         space_func = get_param_func(space_params)
 
-    newspace = self.model.updater.new_space(
-        self, name=space, formula=space_func)
-
     if isinstance(obj, pd.Series):
         obj = obj.to_frame()
 
-    cells_names = _overwrite_colnames(self, obj, names=cells)
+    # Validate the names before the space is created:
+    # the cells go into the new space, which has no members yet.
+    cells_names = _overwrite_colnames(self, obj, names=cells, space=False)
+
+    newspace = self.model.updater.new_space(
+        self, name=space, formula=space_func)
 
     for c in cells_names:
         newspace.spmgr.new_cells(
